@@ -256,7 +256,7 @@ def s5(ck, an, tier):
         for s in all_stmts(fa):
             if s.lineno <= line <= getattr(s, "end_lineno", s.lineno) and not isinstance(s, (ast.If, ast.Try, ast.For, ast.While, ast.With)):
                 st = s
-        construct = ast.unparse(st) if st is not None else site_txt
+        construct = site_txt      # the escaping call itself (not the statement around it: locals it is assigned to / returned with are irrelevant)
         if construct in seen_sites:
             continue
         seen_sites.add(construct)
